@@ -9,7 +9,9 @@ PREFIX = ['', '1', '1 2 3', ': f 1', ': f local a a', '[ 1', '[ 1 [ 2', '{ 1', '
           '^{ 1', '[ 1 2 ] let [ a', '5 #(', '1 2 #( 3', ': f if', 'late zz', '"text" 1', '1 let x', '[ 1 2 ] foreach', ': m immediate 1 ; m']
 FAIL = ['foo', 'nosuchword', '0x', '1a', '"abc', '|fg|', 'then', 'loop', ';', ']', '}', '#)', 'endcase', 'else', 'repeat', 'until', '^}', 'break',
         '#( foo #)', '#( 1 0 / #)', '#( drop #)', '#( "a" 1 + #)', '#( 1 var w #)', '! nosuch', 'var', 'local', ':', 'const c', '2d', '\\( open',
-        '"esc\\q"', '1.5.5', 'endof', 'of', '~)', 'immediate']
+        '"esc\\q"', '1.5.5', 'endof', 'of', '~)', 'immediate',
+        # the failing token is inside text the source itself injected: the reader is then two lexers deep
+        '#( "nosuchw" ~)', '#( "1 nosuchw 2" ~)', '#( "then" ~)', '#( "0x" ~)', '#( "#( nosuchw #)" ~)', '#( "#( \\"zz\\" ~)" ~)', '#( "1 0x" ~) 5']
 TRAIL = ['', ' 2 3', ' : z 9 ;', ' ] then', ' 100 var late_var', ' #( 4 #)', ' "tail" print', ' drop drop', ' ; ]']
 OPEN_END = ['1 if', ': f 1', '#( 1', '[ 1', '{ 1 2', 'begin 1', '3 0 do', '1 case', ': f if 1 then', '#( [ 1 2', '^{ 1']
 PROBES = ['4', 'depth', '1 var x x', ': f 1 ; f', '[ 1 ]', '.s', '#( 2 3 + #)', 'K', 'q', 'z', 'h', 'a', 'g', '1 if 2 then', '3 0 do I loop',
